@@ -71,7 +71,7 @@ def ctor_field_labels(repo, k, call, L, dict_fields=()):
 class ResultFields:
     """Labels of every field of the object returned by method f of class c."""
 
-    def __init__(self, repo, c, f, params, dict_fields=(), _depth=0):
+    def __init__(self, repo, c, f, params, dict_fields=(), _depth=0, only_return=None):
         self.repo = repo
         self.c = c
         self.f = f
@@ -87,7 +87,8 @@ class ResultFields:
         self.ft = FieldTaint(repo, c, f, params, dict_fields, extra_roots=outs)
         ft = self.ft
         # returned expression(s)
-        rets = [n.value for n in walk_local_stmt(f.node) if isinstance(n, ast.Return) and n.value is not None]
+        rets = [n.value for n in walk_local_stmt(f.node) if isinstance(n, ast.Return) and n.value is not None
+                and (only_return is None or n is only_return)]
         for rv in rets:
             self._from_expr(rv, dict_fields, _depth)
 
@@ -146,3 +147,29 @@ class ResultFields:
                     # rename the callee's self to our receiver name
                     ren = frozenset((fn.value.id if p == m.params[0] else p, f2, fl, z) for (p, f2, fl, z) in labs)
                     self.fields[fld] = self.fields.get(fld, EMPTY) | ren
+
+
+def structural_missing(repo, c, m, f, roots, dict_fields):
+    """Structural parameters (bin width, origin, range, low/high, content type ...) of the object a builder returns that do
+    not come from an operand - e.g. because the constructor argument was left to its default.  Decided per return statement
+    (the early `return self.zero()` of __mul__ must not mask the main path)."""
+    rets = [n for n in walk_local_stmt(f.node) if isinstance(n, ast.Return) and n.value is not None]
+    missing = []
+    last_rf = None
+    any_cls = False
+    for rn in rets:
+        rf = ResultFields(repo, c, f, roots, dict_fields, only_return=rn)
+        last_rf = rf
+        if rf.result_cls is None:
+            continue
+        any_cls = True
+        derived_from = set(m.structural) | set(m.slots) | ({m.template} if m.template else set())
+        for p in m.structural:
+            labs = rf.fields.get(p, frozenset())
+            if any(r in roots and (f2 == p or f2 in derived_from) for (r, f2, fv, z) in labs):
+                continue
+            if p not in [x for x, _ in missing]:
+                missing.append((p, (rf.ctor_calls or [rn])[0]))
+    if not any_cls:
+        return None, last_rf
+    return missing, last_rf
